@@ -470,3 +470,130 @@ Example nonvacuous_trusted :
      v_ips := ["1.1.1.1"; "2.2.2.2"; "10.1.2.3"];
      v_hdrs := [(XFM, "POST"); (XFU, "/pst/a"); (FWD, "for=1.1.1.1;proto=https, for=2.2.2.2")] |}.
 Proof. vm_compute. split; reflexivity. Qed.
+
+(* ------------------------------------------------------------------ the property theorems, for both loaders *)
+
+(** a peer that is not listed is not trusted: by the repaired loader always, by the pinned loader
+    outside the inputs of C09-F1 *)
+Lemma not_listed_untrusted fixed es peer :
+  Forall wf_entry es -> wf_ip peer -> ~ listed es peer ->
+  (fixed = false -> guard_F1 es peer = false) -> trusted_peer fixed es peer = false.
+Proof.
+  intros Hes Hp Hl Hg. apply not_true_is_false. intro T. apply Hl.
+  destruct fixed.
+  - apply trust_is_membership; assumption.
+  - apply trust_is_membership_pinned; auto.
+Qed.
+
+Lemma listed_trusted fixed es peer :
+  Forall wf_entry es -> wf_ip peer -> listed es peer -> trusted_peer fixed es peer = true.
+Proof.
+  intros Hes Hp Hl.
+  assert (T : trusted_peer true es peer = true) by (apply trust_is_membership; assumption).
+  destruct fixed; [exact T|].
+  destruct (guard_F1 es peer) eqn:G.
+  - (* guard fires: the peer does not parse, so it cannot be listed *)
+    exfalso. unfold guard_F1 in G. apply andb_true_iff in G as [G _].
+    destruct peer; [|discriminate]. destruct Hl as (e & _ & Hc).
+    unfold spec_covers in Hc. simpl in Hc. destruct e; discriminate.
+  - rewrite pinned_eq_fixed by exact G. exact T.
+Qed.
+
+Theorem noninterference_gen parse_uri fixed es peer c h h' :
+  Forall wf_entry es -> wf_ip peer ->
+  ~ listed es peer -> (fixed = false -> guard_F1 es peer = false) ->
+  same_except_forwarded h h' ->
+  serve parse_uri fixed es peer c h = serve parse_uri fixed es peer c h' /\
+  forall (D : Type) (decide : view -> D),
+    decide (s_view (serve parse_uri fixed es peer c h)) = decide (s_view (serve parse_uri fixed es peer c h')).
+Proof.
+  intros Hes Hp Hl Hg Hs.
+  assert (Ht := not_listed_untrusted fixed es peer Hes Hp Hl Hg).
+  assert (E := untrusted_noninterference parse_uri fixed es peer c h h' Ht Hs).
+  split; [exact E|]. intros D decide. rewrite E. reflexivity.
+Qed.
+
+Theorem not_passed_on_gen parse_uri fixed es peer c h :
+  Forall wf_entry es -> wf_ip peer ->
+  ~ listed es peer -> (fixed = false -> guard_F1 es peer = false) ->
+  serve parse_uri fixed es peer c h =
+    {| s_view := {| v_method := c_method c; v_scheme := if c_tls c then "https" else "http";
+                    v_host := c_host c; v_rawpath := c_escpath c; v_query := c_rawquery c;
+                    v_ips := [c_peer c]; v_hdrs := not_forwarded h |};
+       s_up_fwd := spec_upstream_untrusted c;
+       s_up_method := c_method c;
+       s_up_uri := (c_escpath c ++ (if nonempty (c_rawquery c) then "?" ++ c_rawquery c else ""))%string |} /\
+  forall k, In k untrusted_header -> has k (v_hdrs (s_view (serve parse_uri fixed es peer c h))) = false.
+Proof.
+  intros Hes Hp Hl Hg.
+  assert (Ht := not_listed_untrusted fixed es peer Hes Hp Hl Hg).
+  rewrite (untrusted_not_passed_on parse_uri fixed es peer c h Ht). split; [reflexivity|].
+  intros k Hk. cbn [s_view spec_view_untrusted v_hdrs]. apply has_not_forwarded.
+  unfold is_forwarded_name. apply existsb_exists. exists k. split; [exact Hk | apply String.eqb_refl].
+Qed.
+
+(** the repaired loader: no guard *)
+Theorem noninterference_fixed parse_uri es peer c h h' :
+  Forall wf_entry es -> wf_ip peer -> ~ listed es peer -> same_except_forwarded h h' ->
+  serve parse_uri true es peer c h = serve parse_uri true es peer c h' /\
+  forall (D : Type) (decide : view -> D),
+    decide (s_view (serve parse_uri true es peer c h)) = decide (s_view (serve parse_uri true es peer c h')).
+Proof. intros Hes Hp Hl Hs. apply noninterference_gen; try assumption. discriminate. Qed.
+
+Theorem not_passed_on_fixed parse_uri es peer c h :
+  Forall wf_entry es -> wf_ip peer -> ~ listed es peer ->
+  serve parse_uri true es peer c h =
+    {| s_view := {| v_method := c_method c; v_scheme := if c_tls c then "https" else "http";
+                    v_host := c_host c; v_rawpath := c_escpath c; v_query := c_rawquery c;
+                    v_ips := [c_peer c]; v_hdrs := not_forwarded h |};
+       s_up_fwd := spec_upstream_untrusted c;
+       s_up_method := c_method c;
+       s_up_uri := (c_escpath c ++ (if nonempty (c_rawquery c) then "?" ++ c_rawquery c else ""))%string |} /\
+  forall k, In k untrusted_header -> has k (v_hdrs (s_view (serve parse_uri true es peer c h))) = false.
+Proof. intros Hes Hp Hl. apply not_passed_on_gen; try assumption. discriminate. Qed.
+
+Theorem trusted_overrides_gen parse_uri fixed es peer c h :
+  Forall wf_entry es -> wf_ip peer -> listed es peer ->
+  s_view (serve parse_uri fixed es peer c h) =
+  let uri := match hdr XFU h with Some v => if nonempty v then parse_uri v else None | None => None end in
+  {| v_method := override (hdr XFM h) (c_method c);
+     v_scheme := override (hdr XFP h) (if c_tls c then "https" else "http");
+     v_host := override (hdr XFH h) (c_host c);
+     v_rawpath := override (option_map fst uri) (c_escpath c);
+     v_query := override (option_map snd uri) (c_rawquery c);
+     v_ips := spec_forwarded_clients h ++ [c_peer c];
+     v_hdrs := h |}.
+Proof.
+  intros Hes Hp Hl. apply trusted_overrides_exactly. apply listed_trusted; assumption.
+Qed.
+
+(** the pinned loader trusts the inputs of C09-F1 and lets their forwarded headers through: the
+    2-safety statement fails there *)
+Theorem F1_pinned_noninterference_refuted :
+  exists es peer c h h',
+    Forall wf_entry es /\ wf_ip peer /\ ~ listed es peer /\ guard_F1 es peer = true /\
+    same_except_forwarded h h' /\
+    s_view (serve (fun _ => None) false es peer c h) <> s_view (serve (fun _ => None) false es peer c h') /\
+    s_view (serve (fun _ => None) true es peer c h) = s_view (serve (fun _ => None) true es peer c h').
+Proof.
+  exists [EIp []], [],
+         {| c_peer := "fe80::1%eth0"; c_tls := false; c_method := "GET"; c_host := "a.example.com";
+            c_escpath := "/pub/a"; c_rawquery := "" |},
+         [(XFM, "POST")], [].
+  split; [repeat constructor; simpl; auto|]. split; [left; reflexivity|].
+  split; [intro L; apply listedb_listed in L; vm_compute in L; discriminate|].
+  split; [reflexivity|]. split; [reflexivity|].
+  split; [vm_compute; intro E; inversion E | vm_compute; reflexivity].
+Qed.
+
+(** the former finding inputs satisfy the hypotheses of the unguarded theorems *)
+Example nonvacuous_former_F1_input :
+  let es := [EIp []; ECidr [10;0;0;0]%N [255;0;0;0]%N] in
+  let peer : ip := [] in
+  Forall wf_entry es /\ wf_ip peer /\ ~ listed es peer /\ guard_F1 es peer = true /\
+  trusted_peer true es peer = false /\ trusted_peer false es peer = true.
+Proof.
+  split; [repeat constructor; simpl; auto|]. split; [left; reflexivity|].
+  split; [intro L; apply listedb_listed in L; vm_compute in L; discriminate|].
+  repeat split; reflexivity.
+Qed.
